@@ -51,7 +51,7 @@ let () =
             | Some e ->
               incr decided;
               let e = string_of_bytes e in
-              let is_ok = obs = "ok" || (String.length obs >= 3 && String.sub obs 0 3 = "ok:") in
+              let is_ok = obs = "ok" || (String.length obs >= 3 && (String.sub obs 0 3 = "ok:" || String.sub obs 0 3 = "ok|")) in
               let obs_class = if is_ok then "ok" else "reject" in
               let bad =
                 if e = "no-panic" then obs = "panic"
